@@ -1414,3 +1414,47 @@ Proof.
     assert (Hl : l' = ExO.plan) by (destruct Hcr as [H|H]; injection H as <-; reflexivity).
     subst l'. destruct Hin as [H|[H|[]]]; discriminate H.
 Qed.
+
+(* ------------------------------------------------------------------------------------------ *)
+(* The statements of props/C04.v                                                               *)
+(* ------------------------------------------------------------------------------------------ *)
+Theorem cone_invariant_partial2_b (q : st) (E G : list str) (ops : list op) :
+  quiescent_success_b q = true -> inv_core_b q = true ->
+  cone_ops2 q E G [] q ops ->
+  let s := run_ops ops q in
+  let h := rebuild_hist [] q ops in
+  (forall l x, sstate_of l s = Some x -> sstate_of l q = Some x \/ tcone E G h (KStep, l)) /\
+  (forall k, attached k s = true -> attached k q = true \/ tcone E G h k) /\
+  (forall l, In l (dispatched ops) -> tcone E G h (KStep, l)) /\
+  (forall l, In l (executed ops q) -> tcone E G h (KStep, l)).
+Proof.
+  intros Hq HI. exact (cone_invariant_partial2 q E G Hq (inv_core_no_file_creator q HI) ops).
+Qed.
+
+Theorem cone_idle_optional_clause_needed :
+  exists (cap : N) (hist : list xop) (E : list str) (ops : list op) (l : str),
+    successful_history cap hist /\
+    let q := run_xops hist (init_st cap) in
+    inv_core_b q = true /\
+    cone_ops2_first_bad q E [] 0 [] q ops = Some (pred (length ops), 6) /\
+    dispatch_guard l (run_ops (removelast ops) q) = true /\
+    In l (executed ops q) /\
+    ~ tcone E [] (rebuild_hist [] q ops) (KStep, l).
+Proof.
+  exists 3, ExO.hist, [ExO.p2_py], ExO.ops, ExO.u.
+  destruct ExO.facts as [H1 [_ [H3 [_ [H5 [H6 [H7 _]]]]]]].
+  split; [exact H1|]. change (run_xops ExO.hist (init_st 3)) with ExO.q.
+  split; [exact H3|]. split; [exact H5|]. split; [exact H6|]. split; [exact H7 | exact ExO.u_outside_cone].
+Qed.
+
+Lemma ExR_example :
+  quiescent_success_b ExR.q = true /\ inv_core_b ExR.q = true /\
+  cone_ops2 ExR.q [ExR.plan_py] [] [] ExR.q ExR.ops /\
+  cone_ops2_b ExR.q [ExR.plan_py] [] ExR.q ExR.ops = true /\
+  executed ExR.ops ExR.q = [ExR.plan; ExR.w] /\ dispatched ExR.ops = [ExR.plan; ExR.plan; ExR.t; ExR.w] /\
+  attached (KStep, ExR.u) (run_ops ExR.ops ExR.q) = false.
+Proof.
+  destruct ExR.facts as [H1 [H2 [H3 [H4 [_ [_ [H7 _]]]]]]].
+  split; [exact H1|]. split; [exact H2|]. split; [exact ExR.ok|]. split; [exact ExR_checker|].
+  split; [exact H3|]. split; [exact H4 | exact H7].
+Qed.
